@@ -83,7 +83,12 @@ var ConfigDefault = Config{
 func configDefault(config ...Config) Config {
 	// Return default config if nothing provided
 	if len(config) < 1 {
-		return ConfigDefault
+		// ConfigDefault carries no MaxFunc: without one the first request ran into a nil function
+		cfg := ConfigDefault
+		cfg.MaxFunc = func(_ fiber.Ctx) int {
+			return cfg.Max
+		}
+		return cfg
 	}
 
 	// Override default config
